@@ -468,18 +468,28 @@ class Fn:
             self.need("monadic")
         self.ntmp += 1
         t = "t'%d" % self.ntmp
-        self.pre[-1].append(("bind" if monadic else "let", rhs, t))
+        self.pre[-1].append(("bind" if monadic else "let", rhs, [t]))
         return E(t, "*", ty, True)
+
+    def bind_name(self, e, name):
+        """e is the temporary bound by the last hoisted computation: bind `name` there instead"""
+        if not (self.pre[-1] and e.text.startswith("t'")):
+            return False
+        kind, rhs, names = self.pre[-1][-1]
+        if e.text not in names or name in names:
+            return False
+        self.pre[-1][-1] = (kind, rhs, [name if x == e.text else x for x in names])
+        return True
 
     def open_pre(self):
         self.pre.append([])
 
     def close_pre(self, text):
-        for kind, rhs, pat in reversed(self.pre.pop()):
+        for kind, rhs, names in reversed(self.pre.pop()):
             if kind == "bind":
-                text = "bind (%s) (fun %s =>\n%s)" % (rhs, pat, text)
+                text = "bind (%s) (fun %s =>\n%s)" % (rhs, pat_text(names), text)
             else:
-                text = "let %s := %s in\n%s" % (pat, rhs, text)
+                text = "let %s := %s in\n%s" % (pat_text(names), rhs, text)
         return text
 
     # ---- variables
@@ -818,7 +828,7 @@ class Fn:
             p, c, sz = (self.ex(a) for a in args)
             if not self.is_byte_ptr(p.ty):
                 bad(n, "memset of something that is not the byte array")
-            self.pre[-1].append(("bind", "memset8 mem' %s %s %s" % (emb(p, "?"), emb(c, "Z"), emb(sz, "N")), "mem'"))
+            self.pre[-1].append(("bind", "memset8 mem' %s %s %s" % (emb(p, "?"), emb(c, "Z"), emb(sz, "N")), ["mem'"]))
             return p
         fi = self.mod.fn(name, n)
         for f in ("fuel", "uses_mem", "writes_mem"):
@@ -866,11 +876,11 @@ class Fn:
         pat += outs + (["mem'"] if fi.flags["writes_mem"] else [])
         if fi.flags["monadic"]:
             self.need("monadic")
-            self.pre[-1].append(("bind", text, pat_text(pat)))
+            self.pre[-1].append(("bind", text, pat))
         elif pat == [rt]:
             return E(text, "*", fi.ret)
         elif pat:
-            self.pre[-1].append(("let", text, pat_text(pat)))
+            self.pre[-1].append(("let", text, pat))
         return E(rt, "*", fi.ret, True) if rt else None
 
     def top(self, n):
@@ -934,7 +944,7 @@ class Fn:
     def seq(self, lst, i, k):
         if i == len(lst):
             return k()
-        return self.st(lst[i], lambda: self.seq(lst, i + 1, k))
+        return self.st(lst[i], k if i == len(lst) - 1 else lambda: self.seq(lst, i + 1, k))
 
     def st(self, s, k):
         kind = s.get("kind")
@@ -957,6 +967,7 @@ class Fn:
         def k2():
             self.env = dict(saved)
             return k()
+        k2.small = getattr(k, "small", False)
         return self.seq(kids(s), 0, k2)
 
     def st_DeclStmt(self, s, k):
@@ -982,13 +993,14 @@ class Fn:
                 self.top(init[0])
                 e = self.ex(init[0])
                 self.env[name] = v
-                text.append((self.pre.pop(), "let %s := %s in" % (name, emb(e, "N", False))))
+                line = None if self.bind_name(e, name) else "let %s := %s in" % (name, emb(e, "N", False))
+                text.append((self.pre.pop(), line))
             else:
                 self.env[name] = v             # uninitialised: no binding until it is assigned
         body = k()
         for pre, line in reversed(text):
             self.pre.append(pre)
-            body = self.close_pre(line + "\n" + body)
+            body = self.close_pre(line + "\n" + body if line else body)
         return body
 
     def assign(self, lhs, e, k):
@@ -999,6 +1011,8 @@ class Fn:
             v = self.env.get(lhs["referencedDecl"].get("name"))
             if v is None or v.kind not in ("val", "cstruct"):
                 bad(lhs, "assignment to %s" % lhs["referencedDecl"].get("name"))
+            if self.bind_name(e, v.name):
+                return k()
             return "let %s := %s in\n%s" % (v.name, emb(e, "N", False), k())
         if kind == "MemberExpr":
             v = self.var_of(kids(lhs)[0])
@@ -1070,48 +1084,59 @@ class Fn:
     def st_IfStmt(self, s, k):
         c = kids(s)
         cnd, then, els = c[0], c[1], (c[2] if len(c) > 2 else None)
+        branches = [then] + ([els] if els else [])
         self.open_pre()
         self.top(cnd)
-        cc = self.cond(cnd)
-        kk = self.join(k, [then] + ([els] if els else []), can_fall(then) and can_fall(els))
+        cc = emb(self.cond(cnd), "N", False)
         env0 = dict(self.env)
-        tt = self.st(then, kk.use)
+        both = can_fall(then) and can_fall(els)
+        jumps = ("ReturnStmt", "BreakStmt", "ContinueStmt", "GotoStmt")
+        if both and not any(contains({"inner": [b]}, jumps) for b in branches):
+            # both branches only compute: the `if` yields the variables they may change
+            names = [v.name for v in self.modified(branches)]
+            n0 = self.uses.get("monadic", 0)
+            tt = self.st(then, lambda: "\0")
+            self.env = dict(env0)
+            te = self.st(els, lambda: "\0") if els else "\0"
+            self.env = dict(env0)
+            text = "if %s then\n%s\nelse\n%s" % (cc, ind(tt), ind(te))
+            if self.uses.get("monadic", 0) != n0:
+                text = "bind (%s) (fun %s =>\n%s)" % (text.replace("\0", ok(tuple_text(names))), pat_text(names), k())
+            else:
+                text = "let %s :=\n%s in\n%s" % (pat_text(names), ind(text.replace("\0", tuple_text(names))), k())
+            return self.close_pre(text)
+        use, wrap = self.join(k, branches, both)
+        tt = self.st(then, use)
         self.env = dict(env0)
-        te = self.st(els, kk.use) if els else kk.use()
+        te = self.st(els, use) if els else use()
         self.env = dict(env0)
-        return self.close_pre(kk.wrap("if %s then\n%s\nelse\n%s" % (emb(cc, "N", False), ind(tt), ind(te))))
+        return self.close_pre(wrap("if %s then\n%s\nelse\n%s" % (cc, ind(tt), ind(te))))
+
+    def modified(self, stmts):
+        m = set()
+        for b in stmts:
+            self.mods(b, m)
+        return [v for v in self.env.values() if v.name in m]
 
     def join(self, k, stmts, shared):
-        """continuation k shared by several branches: a let-bound function of the variables
-        the branches may change (only when more than one branch continues)"""
-        fn = self
-
-        class J:
-            def __init__(j):
-                j.head = None
-                if shared:
-                    fn.njoin += 1
-                    name = "k'%d" % fn.njoin
-                    m = set()
-                    for b in stmts:
-                        fn.mods(b, m)
-                    vs = [v for v in fn.env.values() if v.name in m]
-                    env0 = dict(fn.env)
-                    body = k()
-                    fn.env = env0
-                    if vs:
-                        j.head = "let %s := fun %s =>\n%s in" % (
-                            name, " ".join("(%s : %s)" % (v.name, v.coq()) for v in vs), ind(body))
-                    else:
-                        j.head = "let %s :=\n%s in" % (name, ind(body))
-                    j.call = " ".join([name] + [v.name for v in vs])
-
-            def use(j):
-                return j.call if shared else k()
-
-            def wrap(j, text):
-                return j.head + "\n" + text if j.head else text
-        return J()
+        """(use, wrap): `use()` is the text that continues with k; when several branches continue
+        (shared) k becomes a let-bound function k'N of the variables the branches may change and
+        `wrap` puts its definition in front.  A continuation that already is such a call is reused."""
+        if not shared or getattr(k, "small", False):
+            return k, (lambda text: text)
+        self.njoin += 1
+        name = "k'%d" % self.njoin
+        vs = self.modified(stmts)
+        env0 = dict(self.env)
+        body = k()
+        self.env = env0
+        if vs:
+            head = "let %s := fun %s =>\n%s in\n" % (name, " ".join("(%s : %s)" % (v.name, v.coq()) for v in vs), ind(body))
+        else:
+            head = "let %s :=\n%s in\n" % (name, ind(body))
+        use = lambda: " ".join([name] + [v.name for v in vs])
+        use.small = True
+        return use, (lambda text: head + text)
 
     def st_SwitchStmt(self, s, k):
         groups, has_default = switch_groups(s)
@@ -1123,14 +1148,14 @@ class Fn:
         sc = e.ty.scope()
         self.nsw += 1
         sw = E("sw'%d" % self.nsw, "*", e.ty, True)
-        kk = self.join(k, [g for _, grp in groups for g in grp], True)
+        use, wrap = self.join(k, [g for _, grp in groups for g in grp], True)
         env0 = dict(self.env)
-        self.breaks.append(kk.use)
+        self.breaks.append(use)
         default, arms = None, []
         for labels, grp in groups:
             grp = grp[:-1] if grp and grp[-1].get("kind") == "BreakStmt" else grp
             self.env = dict(env0)
-            body = self.seq(grp, 0, kk.use)
+            body = self.seq(grp, 0, use)
             tests = []
             for l in labels:
                 if l is None:
@@ -1144,10 +1169,10 @@ class Fn:
                 arms.append(("(%s)%%%s" % (t, sc) if len(tests) > 1 else "%s%%%s" % (t, sc), body))
         self.breaks.pop()
         self.env = dict(env0)
-        text = default if default is not None else kk.use()
+        text = default if default is not None else use()
         for t, body in reversed(arms):
             text = "if %s then\n%s\nelse\n%s" % (t, ind(body), text if text.startswith("if ") else ind(text))
-        return self.close_pre("let %s := %s in\n%s" % (sw.text, emb(e, "N", False), kk.wrap(text)))
+        return self.close_pre("let %s := %s in\n%s" % (sw.text, emb(e, "N", False), wrap(text)))
 
     def st_BreakStmt(self, s, k):
         if not self.breaks:
@@ -1208,6 +1233,8 @@ class Fn:
         env0 = dict(self.env)
         brk = lambda: exit_text
         cont = (lambda: self.st(inc, lambda: rec)) if inc else (lambda: rec)
+        brk.small = True
+        cont.small = not inc
         self.loops.append({"ret": has_ret, "cont": cont, "brk": brk})
         self.breaks.append(brk)
         self.open_pre()
